@@ -218,12 +218,18 @@ func init() {
 	register(&spec{
 		ID: "C13", Title: "History is trimmed only beyond the limit and never loses a live revision",
 		Runs: []runSpec{
-			{Name: "history", Pkg: pkgCtl, Func: "VH_History", Quick: []int{2, 1, 3}, Thorough: []int{3, 2, 3},
+			{Name: "history", Pkg: pkgCtl, Func: "VH_History", Quick: []int{2, 1, 3}, Thorough: []int{2, 2, 3},
 				Bounds: func(a []int) string {
 					return fmt.Sprintf("sync(key) over the update revision plus %d more revisions, each with owner in {this set, another controller, none} x {selector labels, labels+upgrade marker, marker only} and an arbitrary revision number in [0,2^40); %d pods each naming any own revision; revisionHistoryLimit arbitrary int32 >= 0", a[0], a[1])
 				},
 				Asserts: []string{"only revisions of this set are deleted", "live revisions are never deleted", "history is trimmed only beyond the limit", "at most revisionHistoryLimit unused revisions remain", "exactly the surplus is deleted"},
 				Covers:  []string{"a revision delete was issued", "reconcile succeeded"}},
+			{Name: "history-two-pods", Pkg: pkgCtl, Func: "VH_History", Quick: []int{1, 2, 3}, Thorough: []int{2, 2, 1},
+				Bounds: func(a []int) string {
+					return fmt.Sprintf("as above with %d extra revision(s) and %d pods, replicas in [0,%d] so that pods may be condemned while still naming their revision", a[0], a[1], a[1])
+				},
+				Asserts: []string{"live revisions are never deleted"},
+				Covers:  []string{"a revision delete was issued"}},
 		},
 		Stubs:        ctlStubs,
 		Assumptions:  []string{"creation timestamps of the revisions are equal (ties are broken by name)", "getPatch/ApplyRevision models as in C03"},
@@ -416,6 +422,10 @@ func init() {
 				},
 				Asserts: []string{"the update revision resolves to the adopted built-in revision", "every marked revision is adopted", "revisions are label-synced before they are adopted", "every pod ends up adopted by the Advanced set", "the pod population is unchanged"},
 				Covers:  []string{"migration reconciled"}},
+			{Name: "migrate-with-a-failing-revision-write", Pkg: pkgCtl, Func: "VH_Migrate", Quick: []int{2, 1}, Thorough: []int{3, 1},
+				Bounds:  func(a []int) string { return fmt.Sprintf("as above (%d pods) with one failing label-sync or adoption write (server error or conflict)", a[0]) },
+				Asserts: []string{"every marked revision is adopted", "the update revision resolves to the adopted built-in revision"},
+				Covers:  []string{"migration reconciled", "fault injected at rev.update"}},
 		},
 		Stubs: ctlStubs,
 		Assumptions: []string{
